@@ -69,15 +69,6 @@ Proof.
   apply flat_map_ext. intros [i p]. apply lammps_block_trace.
 Qed.
 
-Lemma indexed_length {A} (l : list A) : length (indexed l) = length l.
-Proof. unfold indexed. rewrite combine_length, seq_length. apply Nat.min_id. Qed.
-
-Lemma indexed_nth {A} (l : list A) k d : (k < length l)%nat -> nth k (indexed l) (O, d) = (k, nth k l d).
-Proof.
-  intro H. unfold indexed. rewrite combine_nth by (rewrite seq_length; reflexivity).
-  rewrite seq_nth by exact H. reflexivity.
-Qed.
-
 (* ---- the force cell is Potential.force: minus the gradient of the same energy callable at the same r ---- *)
 Local Open Scope R_scope.
 Definition sem_scale (s : scale) (v a : nat -> R) (j : nat) : R :=
